@@ -461,6 +461,9 @@ def probe():
         out["fix_chain"] = False
     got = af.AbstractPriorModel.from_dict({"type": "dict", "arguments": {"k": 0.0, "j": 1.5}})
     out["fix_falsy"] = "k" in got
+    z = af.Model(vclasses.T2, c=1.0)
+    z.pos_0, z.pos_1 = 0.5, 0.25
+    out["fix_instance"] = z.dict()["type"] == "model" and af.Model(vclasses.G2, a=1.0, b=2.0).dict()["type"] == "instance"
     return out
 
 
